@@ -264,6 +264,7 @@ func run(c *vf.Ctx) {
 		"B: files of the reference encoder (unencrypted x every padding length; encrypted: cipher{aes256-ctr,aes256-cbc} x rounds{1,16[,2,3,64,2048]} x salt length x comment) and of ssh-keygen (type x {plain,'x',40 bytes,aes256-cbc,rounds 1,3[,64]}) parse to the reference-decoded key; " +
 		"C2: every non-empty subset of the redundant copies of the key {outer blob, public field(s), ed25519 public half, seed/scalar/d,p,q,iqmp} replaced by a second key's values, unencrypted and aes256-ctr; " +
 		"C: every single fault of a valid unencrypted file per key type (outer key, each private/public field replaced or swapped, scalar d+n/-d/0/n-d, check-ints, every padding byte x3, nkeys, trailing, lengths); " +
+		"H (hardening): every key: ONE fresh key object written 3 times (comments of 3 padding classes, returned block overwritten in between, object unchanged), parsed from a private PEM copy (bytes untouched; copy overwritten before the key is used), the object returned by the parser written again twice (byte-for-byte = reference) and re-parsed; standard keys encrypted: passphrase and PEM buffers reused by the caller (untouched by Marshal/Parse, cleared after the call), wrong passphrase and missing passphrase BEFORE the right one on the same buffers, wrong after right; comments of 2^k+{-1,0,1} bytes for k in {8,12,16}[,20,22] x {ed25519,p256,rsa1024} unencrypted and 255..65537 encrypted, passphrases of 71/72/73/111/112/127/128/129/255/256/257/65536 bytes with the last byte significant (reference decrypts, passphrase minus last byte is wrong, ssh-keygen reads them); RSA key objects on which Precompute was never called; " +
 		"non-trivial = distinct (part,key,variant) that reached the comparison; oracle = reference openssh-key-v1 model + sign/verify + stored public key")
 	c.Assume("crypto/rsa, crypto/ecdsa, crypto/ed25519, math/big of the standard library are correct; ssh-keygen (when present) is OpenSSH 9.2")
 	c.Assume("encrypted files are decrypted on the reference side with the bcrypt_pbkdf model verif/ref/bcryptpbkdfref (KAT-validated, and sshkeyv1 reproduces ssh-keygen-encrypted files byte for byte) and AES-CTR/CBC built on crypto/aes")
@@ -333,6 +334,9 @@ func run(c *vf.Ctx) {
 	partC(c, keys, g)
 	partC2(c, keys)
 	c.Set("seconds_part_C", time.Since(t0).Seconds())
+	t0 = time.Now()
+	partH(c, keys, g)
+	c.Set("seconds_part_H", time.Since(t0).Seconds())
 }
 
 // ---- part A -----------------------------------------------------------------------
